@@ -25,5 +25,14 @@ Configs ==
   \cup {Cfg("group-by", 0, g, "") : g \in {<<"a">>, <<"b">>, <<"a", "b">>}}
   \cup {Cfg("uniq-a", 0, <<>>, o) : o \in {"", "-c", "-n"}}
   \cup {Cfg("sample", n, g, "") : n \in {0, 1, 2}, g \in {<<>>, <<"a">>}}
-Cases == {[c |-> c, s |-> s] : c \in Configs, s \in Streams}
+\* Group-by values containing the comma or empty: a record's group is the TUPLE of its group-by values, so ("x,y","z") and
+\* ("x","y,z") are different groups whatever text an implementation joins them into.  (The engine renders DKVP with ";".)
+RUsep == { <<P("a", "x,y"), P("b", "z")>>, <<P("a", "x"), P("b", "y,z")>>, <<P("a", "x"), P("b", "y")>>,
+           <<P("a", ","), P("b", "")>>, <<P("a", ""), P("b", ",")>> }
+StreamsSep == UNION {[1..l -> RUsep] : l \in 0..MaxLen}
+AB == <<"a", "b">>
+SepConfigs ==
+  {Cfg("head", 1, AB, ""), Cfg("head", 2, AB, ""), Cfg("tail", 1, AB, ""), Cfg("tail", 2, AB, ""), Cfg("cat", 0, AB, "-n"),
+   Cfg("cat", 0, AB, "-N"), Cfg("group-by", 0, AB, ""), Cfg("decimate", 2, AB, "-b"), Cfg("decimate", 2, AB, "-e")}
+Cases == {[c |-> c, s |-> s] : c \in Configs, s \in Streams} \cup {[c |-> c, s |-> s] : c \in SepConfigs, s \in StreamsSep}
 =============================================================================
